@@ -599,6 +599,78 @@ def _reader_ok_factory(ctx: Ctx, fi: FuncInfo):
     return ok
 
 
+def _eof_spin(ctx: Ctx, fi: FuncInfo, w: ast.While):
+    """`while True:` whose only exits compare a raw stream read with non-empty constants: at end of input read() returns b'' forever.
+
+    Returns the offending read statement, or None. Deliberately narrow: every exit of the loop must be guarded solely by such a
+    comparison; a counter, a length test, a falsy test of the value or a checked reader (which raises on a short read) leaves it alone.
+    """
+    if not (isinstance(w.test, ast.Constant) and w.test.value is True):
+        return None
+    # local aliases of an unchecked read:  r = <expr>.read
+    aliases = set()
+    for n in walk_own(fi.node):
+        if isinstance(n, ast.Assign) and len(n.targets) == 1 and isinstance(n.targets[0], ast.Name) and isinstance(n.value, ast.Attribute) and n.value.attr == "read":
+            aliases.add(n.targets[0].id)
+    reads = {}
+    for n in ast.walk(w):
+        if isinstance(n, ast.Assign) and len(n.targets) == 1 and isinstance(n.targets[0], ast.Name) and isinstance(n.value, ast.Call):
+            f = n.value.func
+            raw = (isinstance(f, ast.Name) and f.id in aliases) or (isinstance(f, ast.Attribute) and f.attr == "read" and not resolve_call(ctx.p, fi, n.value).funcs)
+            if raw:
+                reads[n.targets[0].id] = n
+    if not reads:
+        return None
+
+    def nonempty_const(e):
+        v = ctx.folder.fold(fi.module, e)
+        if isinstance(v, (bytes, str)):
+            return len(v) > 0
+        if isinstance(v, (tuple, list, set, frozenset)):
+            return bool(v) and all(isinstance(x, (bytes, str)) and len(x) > 0 for x in v)
+        return False
+
+    def only_nonempty_compare(test, var):
+        """test can only be true when `var` is non-empty"""
+        if isinstance(test, ast.Compare) and len(test.ops) == 1 and isinstance(test.left, ast.Name) and test.left.id == var:
+            if isinstance(test.ops[0], (ast.Eq, ast.In)):
+                return nonempty_const(test.comparators[0])
+        if isinstance(test, ast.Call) and isinstance(test.func, ast.Attribute) and test.func.attr in ("startswith", "endswith") and isinstance(test.func.value, ast.Name) and test.func.value.id == var and test.args:
+            return nonempty_const(test.args[0])
+        return False
+
+    exits = []  # (exit stmt, guarding tests as (test, polarity))
+    def visit(stmts, guards):
+        for st in stmts:
+            if isinstance(st, (ast.Break, ast.Return, ast.Raise)):
+                exits.append((st, list(guards)))
+            elif isinstance(st, ast.If):
+                visit(st.body, guards + [(st.test, True)])
+                visit(st.orelse, guards + [(st.test, False)])
+            elif isinstance(st, (ast.For, ast.While)):
+                # exits of inner loops do not leave this one; a return / raise inside does
+                for sub in ast.walk(st):
+                    if isinstance(sub, (ast.Return, ast.Raise)):
+                        exits.append((sub, None))
+            elif isinstance(st, (ast.With, ast.Try)):
+                visit(getattr(st, "body", []), guards)
+                for h in getattr(st, "handlers", []):
+                    visit(h.body, guards + [(None, True)])
+                visit(getattr(st, "finalbody", []), guards)
+            else:
+                # a call that may raise is an exit we cannot see through: be quiet
+                for sub in ast.walk(st):
+                    if isinstance(sub, ast.Call) and resolve_call(ctx.p, fi, sub).funcs:
+                        exits.append((sub, None))
+    visit(w.body, [])
+    if not exits:
+        return None
+    for var, rd in reads.items():
+        if all(g is not None and g and all(t is not None and pol and only_nonempty_compare(t, var) for t, pol in g[-1:]) and len(g) == 1 for _st, g in exits):
+            return rd
+    return None
+
+
 def rule_loop(ctx: Ctx) -> RuleReport:
     rep = RuleReport("C01-LOOP", "while-loop progress (variants V1-V5), path by path")
     n = 0
@@ -617,6 +689,10 @@ def rule_loop(ctx: Ctx) -> RuleReport:
                 rep.ok({"loop": f"{fi.qual}: while {short(w.test, 50)}", "variant": v.variant})
             elif v.status == "violation":
                 rep.fail(Finding("C01-LOOP", fi.module.rel, fi.qual, f"while {short(w.test, 80)}", v.reason, line=w.lineno, path=v.witness))
+            elif (spin := _eof_spin(ctx, fi, w)) is not None:
+                rep.fail(Finding("C01-LOOP", fi.module.rel, fi.qual, f"while True: {short(spin, 60)}",
+                                 "the loop leaves only when an unchecked stream read returns a specific non-empty value; at the end of a truncated input read() returns b'' on every iteration and the loop never ends",
+                                 line=spin.lineno))
             else:
                 rep.obligations += 1
                 rep.residual.append(f"{fi.key}: while {short(w.test, 60)} — {v.reason} ({v.paths} paths); not judged")
